@@ -351,6 +351,10 @@ def run_errors(ctxw):
 # the implementation side
 # --------------------------------------------------------------------------
 
+class CaseBudget(BaseException):
+    """The implementation did not finish one case within the wall-clock budget."""
+
+
 class Impl:
     """Runs wire programs on the real pypyr in this process."""
 
@@ -442,6 +446,18 @@ class Impl:
         _old_backoff = _config.default_backoff
         if isinstance(run.get('default_backoff'), str):
             _config.default_backoff = run['default_backoff']
+        # wall-clock budget per case: an implementation that never returns (a retry that re-attempts an
+        # instruction for ever, a loop that lost its exit) is an observation ('outOfFuel'), not a hang
+        import signal
+
+        def _alarm(signum, frame):
+            raise CaseBudget()
+        try:
+            old_handler = signal.signal(signal.SIGALRM, _alarm)
+            signal.setitimer(signal.ITIMER_REAL, float(os.environ.get('VERIF_FLOW_CASE_S', '20')))
+            armed = True
+        except ValueError:      # not in the main thread
+            armed = False
         try:
             if reuse >= 2:
                 import copy
@@ -468,13 +484,16 @@ class Impl:
             else:
                 ret = self.pr.run(root_name, **kwargs)
             outcome = 'ok'
-        except RecursionError:
+        except (RecursionError, CaseBudget):
             outcome = 'outOfFuel'
         except Exception as e:  # noqa
             outcome = {'err': {'id': objs.setdefault(id(e), len(objs) + 1000), 'name': common.exc_name(e),
                                'msg': str(e)}}
             self._keep = e
         finally:
+            if armed:
+                signal.setitimer(signal.ITIMER_REAL, 0)
+                signal.signal(signal.SIGALRM, old_handler)
             _config.default_backoff = _old_backoff
         ctx = ret if ret is not None else self.last_ctx
         try:
